@@ -368,7 +368,7 @@ def main(tier: str, budget_s: Optional[float] = None) -> int:
     deadline = t0 + (budget_s or (240 if tier == "quick" else 3300))
     cli_tasks = [(n, i) for n in sorted(cli_shapes()) for i in range(len(SECTIONS))]
     cres, cdone = common.pmap(cli_worker, cli_tasks, deadline=deadline, init=cli_init)  # first: this process is rp2-free
-    total, info, complete = run_phases(plan(tier), worker, FIRST, SYMBOLS, EXTRA, deadline)
+    total, info, complete = run_phases(plan(tier), worker, FIRST, SYMBOLS, EXTRA, deadline, by_depth=True)
     from rp2verif import bundled as _B
 
     bt = _B.sheets()
